@@ -2,10 +2,25 @@
    between the two is undone - the outcome (both answer 200, the file exists afterwards) is produced by
    neither sequential order. NOT an obligation of any check. *)
 From Wire Require Import Base.Bytes Model.GoV Model.Codec Model.Message Model.Writer Model.Reader Model.Server Model.Harness.
-From Wire Require Findings.C02.
+
+Definition a_text : bytes := bs "{1500}303O004HE8P 
+{1510}1000
+{1520}2022032400000000000001
+{2000}000000022200
+{3100}021000021JPMORGAN CHASE    *
+{3400}021000021JPMCHASE          *
+{3600}CTR
+{4100}F021000021                         *JPMC                               *123 Test st                        *Test                               *Test                               *
+{4200}D123455                            *Test Name                          *123 Test St                        *Town                               *MO                                 *
+{5000}D123456                            *John Doe                           *123 Anywhere St                    *Anywhere                           *MO                                 *
+{5100}D998877                            *Xxxx First Bank                    *158 Anywhere St                    *Anywhere                           *MO                                 *
+{5200}F404123787                         *Xxxxxxx Bank                       *144 Anywhere St                    *Anywhere                           *MO                                 *
+{6000}Test                               *                                   *                                   *                                   *
+{6500}Test                               *                                   *                                   *                                   *                                   *                                   *
+".
 
 Definition a_message : option message :=
-  match read_model None None [Findings.C02.amount_text] FEOF with ROk m => Some m | _ => None end.
+  match read_model None None [a_text] FEOF with ROk m => Some m | _ => None end.
 
 Definition outcome (st : sstate) (ts : list thread) : list bytes * list bytes := (map thread_str ts, map fst (ss_store st)).
 Definition seq_outcome (st0 : sstate) (ops : list op) (lin : list nat) : list bytes * list bytes :=
